@@ -322,6 +322,24 @@ pub fn dispatch(a: &[String]) -> String {
         },
       }
     }
+    "model_eval_seq" => {
+      // model_eval_seq <xml> (<invocable> <input context>)...: ONE evaluator, the calls one after another; prints every value
+      match dmntk_model::parse(&a[1]) {
+        Err(e) => format!("PARSE-ERROR {}", e),
+        Ok(defs) => match dmntk_model_evaluator::ModelEvaluator::new(&defs) {
+          Err(e) => format!("BUILD-ERROR {}", e),
+          Ok(me) => {
+            let scope = dmntk_feel::Scope::default();
+            let mut out = vec![];
+            for c in a[2..].chunks(2) {
+              let input = dmntk_feel_evaluator::evaluate_context(&scope, &c[1]).unwrap();
+              out.push(format!("{}", me.evaluate_invocable(&c[0], &input)));
+            }
+            format!("VALUES {}", out.join(" | "))
+          }
+        },
+      }
+    }
     "unary_tests" => {
       // unary_tests <input expr> <tests>: evaluates `input in <tests>` the way decision tables do
       let scope = dmntk_feel::Scope::default();
